@@ -806,7 +806,8 @@ fn frag_twin() {
         // slow writes eat into the keep-alive: the slow run may lose a connection to a keep-alive
         // timeout that the whole-write run keeps (one run in ten million) - then the two are two
         // different histories
-        if base.nconns != twin.nconns {
+        let lost = |o: &TwinObs| o.results.iter().filter(|r| r.ends_with(":Disconnected") || r.contains(":Transport")).count();
+        if base.nconns != twin.nconns || lost(&base) != lost(&twin) {
             w.probe("twin_slow_run_lost_a_connection");
             return;
         }
